@@ -23,13 +23,35 @@ Three streams of cases, all from ctx.rng:
             finite, non-negative, symmetric/diagonal), the same step is made on a FRESH object holding the state before the step
             (every answer, the arrays and the training attributes must agree), the Lean object model (`Obj`, `fitObj`, `poisObj`)
             replays the session, returned arrays are overwritten by the harness and the questions repeated.
-Fixed cases replayed at the start of every run: the D28 witness (known finding) and the D46 regression cases (repaired defect:
-an update entry with a vanishing denominator was 0/0; ordinary cases, any non-finite parameter is a violation).
+  magnitude : the float path where the small exact streams cannot go - N from 8 to 120000 nodes (around 2^63 and around the float
+            range of binom(N-2, d-2), powers of two), maximum size D up to N (hundreds to thousands, sizes beyond 46341 on
+            the largest), K in 1..4, u and w from recipes with entries between 1e-100 and 1e+100 (per-column scales, rows spread
+            over 3 orders, zeros; w diagonal / full / with holes / off-diagonal 9..16 orders below the diagonal / off-diagonal
+            only; every affinity below 1e-8), hyperedges of size 2 .. D and up to 6000 of them (4095/4096/4097).  EVERY closed form is
+            compared within a RELATIVE 1e-9 with a reference that stays exact: log_kappa (int, numpy integer, unsorted array,
+            the full ranges) against math.log of the exact integer binom(N-2,d-2) d (d-1)/2; C and its summands, _C_prime,
+            _C_second against the definitions binom(N-2,d-2)/kappa_d, binom(N-3,d-3)/kappa_d, binom(N-2,d-2) d/(N kappa_d) as
+            correctly rounded quotients of exact integers (math.fsum); expected_degree (average, per node),
+            dimension_sequence / degree_sequence(expected=True) against these constants times pair sums formed by running sums
+            (additions of non-negative terms only); poisson_params / hyperedge sums on hand-built CSR, dense and the real
+            binary_incidence_matrix of a real Hypergraph; qf / bf / qf_and_sum / bf_and_sum on the large arrays.  The Lean model
+            answers the same questions: the three constants for thousands of sizes (`cbig`), kappa through the two products of
+            log_binomial as exact naturals (`kap`, theorem C15_log_kappa), Poisson parameters / pair sum / average degree on the
+            exact rationals of the floats for N <= 400.  15% of the cases (N <= 2500) also run `fit` AT SCALE on the same data
+            (hundreds to thousands of nodes / hyperedges, sizes beyond 1000, supplied u or w with tiny / huge entries, n_iter
+            1..4): supplied parameter untouched, finite, non-negative, symmetric / diagonal, max_hye_size = largest size, the
+            returned parameter against n update steps written from their description (running sums) from the same initial
+            draw and divided by C() / sqrt(C()), penalised likelihood (closed form of the sum over all hyperedges) ascends.
+            The first eight cases of every run are pinned to the rare regimes (MAG_FORCED).
+Fixed cases replayed at the start of every run: the D28 witness (known finding), the D46 regression cases (repaired defect:
+an update entry with a vanishing denominator was 0/0; ordinary cases, any non-finite parameter is a violation) and five fit
+cases whose supplied parameters are scaled by 2^-300 .. 2^300.
 """
 import itertools
 import math
 import signal
 import sys
+import time
 import warnings
 from fractions import Fraction
 
@@ -44,7 +66,8 @@ RULE = ("closed/update cases: N in 2..7 nodes, K in 1..3, u entries k/8 (k<=16, 
         "w_prior in {0,1,5} or a symmetric positive array x u_prior in {0,1} or a positive array x max_hye_size None/given x "
         "tolerance (not passed / None / 0 / 1e-9..100) x check_convergence_every (not passed / 0 / 1..12) x K, assortative "
         "passed or inferred x hypergraph built directly or through a history (shuffled insertion, non-contiguous labels, "
-        "temporary and re-inserted hyperedges); n_iter = 1..8 plus k*every, k*every+1, k*every+2 (k=1..3) and one of "
+        "temporary and re-inserted hyperedges), 14% of the supplied memberships scaled by 2^s, s in -300..300, 10% of the supplied "
+        "affinities by 2^s, s in -200..200, 5 fixed fit cases at these scales on every run; n_iter = 1..8 plus k*every, k*every+1, k*every+2 (k=1..3) and one of "
         "24/40/64 when a tolerance is set, all on the same data. Distinct = canonical text of the "
         "whole input; non-trivial = (closed/update) K >= 2, some hyperedge of size >= 3, at least two different rows of u, "
         "(fit) the likelihood moved by more than 1e-9 between two consecutive n_iter; session cases: one model object (which of u, w "
@@ -55,7 +78,20 @@ RULE = ("closed/update cases: N in 2..7 nodes, K in 1..3, u entries k/8 (k<=16, 
         "obj.u / obj.w, replace a hyperedge of a pool hypergraph in place}; a query block follows every other step, the first fit is "
         "followed by query blocks on the trained hypergraph, on the one with the same number of hyperedges, on the one with another "
         "number and on the one with another number of nodes; non-trivial = (session) a fit that inferred something and a later query "
-        "block on another pool entry")
+        "block on another pool entry; magnitude cases: a recipe (seed of a numpy generator, N in 8..120000 from the classes small / mid / "
+        "large / larger (up to 6000) / around 2^63 (N 62..74) / around the float range (N 1015..1045) / huge (20000..120000), powers of "
+        "two and one above, D = N in 40%, else in N/2..N, 2..40 or anywhere, K in 1..4, u = base in [0.05,1) or multiples of 1/16, 0/10/30% "
+        "zeros, rows flat / spread over 10^0..10^3 / one row x1000, per-column scales 10^-12..10^12, overall 10^-90..10^90, w = multiples of "
+        "1/8 times 10^-45..10^45 of kind diagonal / full / some pairs without affinity / off-diagonal 10^-9..10^-16 of the diagonal / "
+        "off-diagonal only / one community without self-affinity, 1-5 hyperedges of size 2, 3, D, D-1, D/2 or random plus, in 7%, 100..6000 small "
+        "ones (4095/4096/4097), incidence matrix hand-built CSR / dense / through a real Hypergraph) x sets of sizes 'all', an int, "
+        "arange(3, D+1), an unsorted sample, and for log_kappa sizes up to N incl. the middle size (N+2)/2 as int, numpy.int64 and arrays; "
+        "15% of the cases with N <= 2500 carry a fit at scale (u supplied 3:1 w supplied, assortative or not, prior 0/1/5, n_iter from [1,2,3] / "
+        "[1,2] / [1,3] / [2,4], max_hye_size None or D, half of them with 20..1500 extra small hyperedges); "
+        "the first eight magnitude cases of a run are pinned (65537 nodes with D = N; N 1015..1045 with D = N; 4097 hyperedges incl. one of "
+        "size N with a fit; every affinity below 1e-8 and not diagonal; u 1e-90 with w 1e-45; u 1e90 with w 1e45; a fit with sizes beyond 1000; "
+        "a fit with w supplied at 1e30); non-trivial = (magnitude) N >= 70 or a scale of at least 1e8 "
+        "or at most 1e-8")
 ASSUMPTIONS = [
     "hyperedges have size >= 2 (size 1 has Poisson parameter 0 and makes the updates divide by zero): excluded from the generator",
     "N >= 3 for the per-node expected degree (the closed form divides by N-2); D <= N",
@@ -69,11 +105,19 @@ ASSUMPTIONS = [
     "same seed reproduces it; queries read u, w, max_hye_size at the time of the call (arrays handed to the constructor are stored by "
     "reference: a write by the caller is a write to the object); fit on a hypergraph with another number of nodes only when nothing is "
     "left to infer (it is a no-op then)",
+    "magnitude stream: 'up to rounding' is relative - 1e-9 of the value, plus 1e-12 of the minuend where the code itself subtracts (the "
+    "square of the summed memberships minus its diagonal); the inputs keep every product u_ia w_ab u_jb and every sum of them inside the "
+    "normal binary64 range (1e-280 .. 1e+280) and no row of u more than 1e3 above the others, so that these are rounding errors and not "
+    "overflow / cancellation of the closed forms themselves; sizes are Python ints, numpy.int64 or int64 arrays (what np.arange and "
+    "np.array give; an int32 array beyond 46341 overflows in d (d-1) on the unchanged code and is not generated); log_kappa is compared in "
+    "log space within 1e-9 max(1, |value|)",
 ]
 TRUSTED = [
     "binary64 evaluation of the float paths is compared with the exact rational model within 1e-9 (relative or absolute)",
     "numpy object-array arithmetic (@, *, +, -, /, sum, matmul, outer) applies the Fraction operators entrywise",
     "math.log / np.log for the likelihood oracle",
+    "magnitude stream: math.log of an exact Python integer of any size, math.lgamma beyond 20000 (spot use), correctly rounded int / int "
+    "true division, math.fsum, numpy cumsum / einsum for the running pair sums (self-checked against the explicit double sum for N <= 40)",
 ]
 BUDGET_S = {"quick": 55, "thorough": 880}
 if hasattr(sys, "set_int_max_str_digits"):
@@ -1170,8 +1214,8 @@ def gen_fit(rng):
         u = [[Fraction(rng.randint(1, 16), 8) for _ in range(K)] for _ in range(N)]
         if K >= 2 and rng.random() < 0.15:
             u = single_holder(rng, u, N, K)
-        if rng.random() < 0.08:      # the property does not depend on the scale of the memberships (exact in binary64: 2^-s)
-            sc = Fraction(1, 2 ** rng.choice([10, 20, 30]))
+        if rng.random() < 0.14:      # the property does not depend on the scale of the memberships (exact in binary64: 2^s)
+            sc = Fraction(2) ** rng.choice([-10, -20, -30, -10, -20, -30, -60, -100, -200, -300, 10, 30, 100, 200, 300])
             u = [[x * sc for x in row] for row in u]
     if which in ("w", "both"):
         w = gen_w(rng, K, assort)
@@ -1183,6 +1227,9 @@ def gen_fit(rng):
             k = rng.randint(1, K - 1)
             for b in range(K):
                 w[k][b] = w[b][k] = Fraction(0)
+        if rng.random() < 0.1:       # tiny / huge affinities (exact in binary64: 2^s)
+            sc = Fraction(2) ** rng.choice([-200, -100, -30, -27, -10, 10, 30, 100, 200])
+            w = [[x * sc for x in row] for row in w]
     r = rng.random()
     mhs = None if r < 0.5 else (rng.randint(Dtrue, N) if r < 0.93 or Dtrue <= 2 else rng.randint(2, Dtrue - 1))
     small = len(edges) <= 4 and N <= 4 and which != "none"   # exact rationals explode when u and w both move
@@ -2111,6 +2158,38 @@ D46_CASES = [
 ]
 
 
+# fixed fit cases at the ends of the binary64 range (powers of two: the runs are the ordinary ones up to an exact scaling, so every
+# clause - supplied parameters stay, finite, non-negative, symmetric, ascent, update steps and whole short fits replayed by the
+# model - is demanded as usual; a threshold, an absolute tolerance or a float32 detour anywhere in the updates shows here)
+def _sc(M, s):
+    return [[Fraction(x) * Fraction(2) ** s for x in row] for row in M]
+
+
+SCALE_CASES = [
+    ("u-2^-300", {"kind": "fit", "N": 3, "K": 2, "assortative": False, "edges": [(0, 1, 2), (0, 1)], "weights": [2, 1],
+                  "u": _sc([[1, 1], [1, 0], [Fraction(1, 2), 0]], -300), "w": None, "w_prior": 0.0, "u_prior": 0.0,
+                  "max_hye_size": None, "seed": 4, "model_fit_upto": 2, "n_list": [1, 2, 3, 4, 6]}),
+    ("u-2^300", {"kind": "fit", "N": 4, "K": 2, "assortative": False, "edges": [(0, 1, 2), (0, 3), (1, 2, 3)], "weights": None,
+                 "u": _sc([[3, 1], [2, 1], [1, 2], [1, 1]], 300), "w": None, "w_prior": 1.0, "u_prior": 0.0,
+                 "max_hye_size": 4, "seed": 11, "model_fit_upto": 2, "n_list": [1, 2, 3, 5, 8]}),
+    ("u-2^-200-prior", {"kind": "fit", "N": 4, "K": 2, "assortative": True, "edges": [(0, 1, 2), (0, 3), (1, 2, 3)], "weights": [1, 2, 3],
+                        "u": _sc([[3, 1], [2, 1], [1, 2], [1, 1]], -200), "w": None, "w_prior": 5.0, "u_prior": 0.0,
+                        "max_hye_size": None, "seed": 12, "model_fit_upto": 2, "n_list": [1, 2, 3, 5, 8]}),
+    ("w-2^-200", {"kind": "fit", "N": 4, "K": 2, "assortative": False, "edges": [(0, 1, 2), (0, 3), (1, 2, 3)], "weights": None,
+                  "u": None, "w": _sc([[Fraction(1, 2), Fraction(1, 4)], [Fraction(1, 4), 1]], -200), "w_prior": 1.0, "u_prior": 0.0,
+                  "max_hye_size": None, "seed": 13, "model_fit_upto": 1, "n_list": [1, 2, 3, 5, 8]}),
+    ("w-2^200", {"kind": "fit", "N": 4, "K": 2, "assortative": True, "edges": [(0, 1, 2), (0, 3), (1, 2, 3)], "weights": [2, 1, 1],
+                 "u": None, "w": _sc([[Fraction(1, 2), 0], [0, 1]], 200), "w_prior": 1.0, "u_prior": 1.0,
+                 "max_hye_size": None, "seed": 14, "model_fit_upto": 1, "n_list": [1, 2, 3, 5, 8]}),
+]
+
+
+def replay_scale(ctx, drv):
+    for name, case in SCALE_CASES:
+        safely(ctx, check_fit, drv, dict(case))
+        ctx.count("fit_cases_at_the_ends_of_the_float_range_replayed")
+
+
 def replay_d46(ctx, drv):
     import numpy as np
     for name, case in D46_CASES:
@@ -2128,6 +2207,7 @@ def replay_d46(ctx, drv):
 
 def replay_known(ctx, drv):
     replay_d46(ctx, drv)
+    replay_scale(ctx, drv)
     if D28_CASE is None:
         return
     d28, liks = check_fit(ctx, drv, dict(D28_CASE), nmax=D28_CASE.get("nmax", 3), model_replay=True)
@@ -2139,6 +2219,776 @@ def replay_known(ctx, drv):
     else:
         ctx.violation(dict(D28_CASE), "the recorded D28 witness no longer shows a decrease of the unpenalised likelihood "
                                       "(the w-update is no longer the MAP step that was modelled)")
+
+
+# -------------------------------------------------------------------------------------------------
+# stream 5: magnitudes - many nodes, large maximum size, tiny and huge parameters (float path only)
+
+MAG_RTOL = 1e-9        # pure relative tolerance of this stream (no absolute floor: entries of size 1e-200 are entries)
+MAG_CANCEL = 1e-12     # rounding of the code's own subtractions, relative to the minuend ("up to rounding")
+MAG_NDEF = 6500        # up to here every size's reference is the definition itself in exact integers (binom(N-2,d-2)/kappa_d ...)
+MAG_NMODEL = 400       # Poisson parameters / pair sums / average degree also through the Lean model up to here
+FLOAT_MAX_LOG = 709.78
+
+
+def mag_arrays(case):
+    """u (N x K), w (K x K) float64 and the hyperedges of a magnitude case, from its recipe (numpy generator seeded by it)"""
+    import numpy as np
+    g = np.random.default_rng(case["aseed"])
+    N, K = case["N"], case["K"]
+    base = 0.05 + 0.95 * g.random((N, K))
+    if case["dyadic"]:
+        base = np.ceil(base * 16) / 16
+    base[g.random((N, K)) < case["pzero"]] = 0.0
+    base[:2, 0] = [0.5, 0.75]                       # two nodes share community 0: the pair sum is positive
+    rowf = np.ones(N)
+    if case["rows"] == "spread":
+        rowf = 10.0 ** g.uniform(0, 3, N)
+    elif case["rows"] == "one":
+        rowf[int(g.integers(N))] = 1e3
+    u = base * rowf[:, None] * (10.0 ** np.array(case["colexp"], dtype=float))[None, :] * 10.0 ** case["uexp"]
+    wb = g.integers(1, 13, (K, K)) / 8.0
+    wb = np.triu(wb) + np.triu(wb, 1).T
+    off = ~np.eye(K, dtype=bool)
+    kind = case["wkind"]
+    if kind == "diag":
+        wb[off] = 0.0
+    elif kind == "sparse":                          # some off-diagonal pairs without affinity
+        z = np.triu(g.random((K, K)) < 0.4, 1)
+        wb[z | z.T] = 0.0
+    elif kind == "offtiny":                         # off-diagonal affinities 9..16 orders below the diagonal
+        t = 10.0 ** -g.uniform(9, 16, (K, K))
+        t = np.triu(t, 1) + np.triu(t, 1).T
+        wb[off] = (wb * t)[off]
+    elif kind == "offonly":                         # no affinity inside a community: everything comes from the off-diagonal
+        wb[~off] = 0.0
+        if K == 1:
+            wb[0, 0] = 0.625
+    if kind in ("offtiny", "full") and K >= 2 and case.get("zero_diag"):
+        k0 = int(g.integers(1, K))
+        wb[k0, k0] = 0.0
+    w = wb * 10.0 ** case["wexp"]
+    edges, seen = [], set()
+    sizes = list(case["esizes"])
+    for d in sizes:
+        d = max(2, min(int(d), N))
+        e = tuple(sorted(int(i) for i in g.choice(N, size=d, replace=False)))
+        if e not in seen:
+            seen.add(e)
+            edges.append(e)
+    if case.get("emany"):                           # many small hyperedges: exactly `emany` columns of the incidence matrix
+        for _ in range(8 * case["emany"]):
+            if len(edges) >= case["emany"]:
+                break
+            d = int(g.integers(2, min(N, 6) + 1))
+            e = tuple(sorted(int(i) for i in g.choice(N, size=d, replace=False)))
+            if e not in seen:
+                seen.add(e)
+                edges.append(e)
+    if case.get("emany"):                           # the few large hyperedges anywhere among the many small ones
+        edges = [edges[int(i)] for i in g.permutation(len(edges))]
+    wts = None if case["weights"] is None else [float(x) for x in case["weights"]][:len(edges)]
+    if wts is not None and len(wts) < len(edges):
+        wts = wts + [1.0] * (len(edges) - len(wts))
+    return u, w, edges, wts
+
+
+def pair_sums(U, w):
+    """reference pair sums over the rows of U by running sums - additions of non-negative terms only, no subtraction (the code
+    subtracts the diagonal from a square): S = sum_(i<j) u_i^T w u_j, A_i = sum_(j != i) u_i^T w u_j,
+    R_i = sum_(j<k, both != i) u_j^T w u_k.  w symmetric."""
+    import numpy as np
+    n, K = U.shape
+    P = np.zeros((n + 1, K))
+    P[1:] = np.cumsum(U, axis=0)                      # P[i] = sum_(j<i) u_j
+    Sf = np.zeros((n + 1, K))
+    Sf[:n] = np.cumsum(U[::-1], axis=0)[::-1]         # Sf[i] = sum_(j>=i) u_j
+    Uw = U @ w
+    below = np.einsum("ik,ik->i", Uw, P[:n])          # sum_(j<i) u_i^T w u_j
+    above = np.einsum("ik,ik->i", Uw, Sf[1:])         # sum_(j>i)
+    A = below + above
+    S = math.fsum(below.tolist())
+    Cb = np.concatenate([[0.0], np.cumsum(below)])[:n]                 # pairs j<k<i
+    Ca = np.concatenate([np.cumsum(above[::-1])[::-1], [0.0]])[1:]     # pairs i<j<k
+    cross = np.einsum("ik,kl,il->i", P[:n], w, Sf[1:])                 # pairs j<i<k
+    return S, A, Cb + Ca + cross
+
+
+def pair_sums_brute(U, w):
+    n = len(U)
+    B = [[float(U[i] @ w @ U[j]) for j in range(n)] for i in range(n)]
+    S = math.fsum(B[i][j] for i in range(n) for j in range(i + 1, n))
+    A = [math.fsum(B[i][j] for j in range(n) if j != i) for i in range(n)]
+    R = [math.fsum(B[j][k] for j in range(n) for k in range(j + 1, n) if i not in (j, k)) for i in range(n)]
+    return S, A, R
+
+
+def relok(got, ref, slack=0.0, rtol=MAG_RTOL):
+    got, ref = float(got), float(ref)
+    if not (math.isfinite(got) and math.isfinite(ref)):
+        return False
+    return abs(got - ref) <= rtol * max(abs(got), abs(ref)) + slack
+
+
+def binom_row(n, kmax):
+    """[binom(n, k) for k = 0..kmax] in exact integers (n < 0 or k > n: 0)"""
+    if n < 0:
+        return [0] * (kmax + 1)
+    row, c = [1], 1
+    for k in range(kmax):
+        c = c * (n - k) // (k + 1) if k < n else 0
+        row.append(c)
+    return row
+
+
+class SizeTable:
+    """per-size constants of the definitions for one N, in exact integers:
+    kappa_d = binom(N-2,d-2) d (d-1) / 2;  C summand = binom(N-2,d-2)/kappa_d;  C' summand = binom(N-3,d-3)/kappa_d;
+    C'' summand = binom(N-2,d-2) d / (N kappa_d).  For N > MAG_NDEF the quotients are taken in the reduced form
+    2/(d(d-1)), 2(d-2)/((N-2) d (d-1)), 2/(N (d-1)) (theorems C15_C_term, C15_exp_degree_*) and the reduction is spot-checked
+    with exact binomials on sampled sizes."""
+
+    def __init__(self, N, dmax):
+        self.N = N
+        self.exact = N <= MAG_NDEF
+        if self.exact:
+            self.r2 = binom_row(N - 2, max(dmax - 2, 0))
+            self.r3 = binom_row(N - 3, max(dmax - 3, 0))
+
+    def c2(self, d):
+        return self.r2[d - 2] if self.exact else math.comb(self.N - 2, d - 2)
+
+    def c3(self, d):
+        if d < 3:
+            return 0
+        return self.r3[d - 3] if self.exact else math.comb(self.N - 3, d - 3)
+
+    def terms(self, d, definition=None):
+        """(C summand, C' summand, C'' summand) as correctly rounded floats of exact integer quotients"""
+        N = self.N
+        if self.exact if definition is None else definition:
+            c2, c3 = self.c2(d), self.c3(d)
+            k2 = c2 * d * (d - 1)               # 2 kappa_d
+            return (2 * c2) / k2, (2 * c3) / k2, (2 * c2 * d) / (N * k2)
+        return 2 / (d * (d - 1)), (2 * (d - 2)) / ((N - 2) * d * (d - 1)) if N > 2 else float("nan"), 2 / (N * (d - 1))
+
+    def log_kappa(self, d):
+        N = self.N
+        if self.exact or min(d - 2, N - d) <= 20000:
+            return math.log(self.c2(d) * d * (d - 1) // 2), "exact integer"
+        lb = math.lgamma(N - 1) - math.lgamma(d - 1) - math.lgamma(N - d + 1)
+        return lb + math.log(d) + math.log(d - 1) - math.log(2), "lgamma"
+
+
+def logk_ok(got, ref):
+    got = float(got)
+    return math.isfinite(got) and abs(got - ref) <= 1e-9 * max(1.0, abs(ref))
+
+
+def chat_of(U):
+    """c_ab = 1/2 sum_(i != j) u_ia u_jb over the rows of U by running sums (additions of non-negative terms only)"""
+    import numpy as np
+    P = np.zeros_like(U)
+    P[1:] = np.cumsum(U, axis=0)[:-1]
+    return 0.5 * (U.T @ P + P.T @ U)
+
+
+def others_of(U):
+    """row i: sum of the other rows (prefix + suffix, no subtraction)"""
+    import numpy as np
+    n, K = U.shape
+    P = np.zeros((n + 1, K))
+    P[1:] = np.cumsum(U, axis=0)
+    Sf = np.zeros((n + 1, K))
+    Sf[:n] = np.cumsum(U[::-1], axis=0)[::-1]
+    return P[:n] + Sf[1:]
+
+
+def edge_groups(edges):
+    """hyperedges grouped by size: (size, positions in the list, node index array)"""
+    import numpy as np
+    by = {}
+    for k, e in enumerate(edges):
+        by.setdefault(len(e), []).append(k)
+    return [(d, np.array(ks), np.array([edges[k] for k in ks])) for d, ks in sorted(by.items())]
+
+
+def edge_stats(u, w, groups, E):
+    """per hyperedge: lambda_e = sum over its node pairs of u_i^T w u_j, s_e = sum of its rows, c_e = 1/2 sum_(i != j) u_ia u_jb.
+    Sizes up to 8 are done for all hyperedges of the size at once over the explicit position pairs i < j, larger ones one by one
+    with running sums - additions of non-negative terms only, either way."""
+    import numpy as np
+    K = w.shape[0]
+    lam, S, chat = np.zeros(E), np.zeros((E, K)), np.zeros((E, K, K))
+    for d, ks, idx in groups:
+        if d <= 8:
+            U = u[idx]
+            i0, i1 = np.triu_indices(d, 1)
+            Ui, Uj = U[:, i0], U[:, i1]
+            lam[ks] = np.einsum("epa,epa->e", Ui @ w, Uj)
+            S[ks] = U.sum(axis=1)
+            chat[ks] = 0.5 * (np.einsum("epa,epb->eab", Ui, Uj) + np.einsum("epa,epb->eab", Uj, Ui))
+        else:
+            for k, e in zip(ks, idx):
+                Ue = u[e]
+                lam[k], S[k], chat[k] = pair_sums(Ue, w)[0], Ue.sum(axis=0), chat_of(Ue)
+    return lam, S, chat
+
+
+def ref_w_step(u, w, edges, A, r):
+    """one `_w_update` by its description: w_ab * sum_e (A_e/lambda_e) c_(e,ab) / (c_(V,ab) + r_ab), 0 where the denominator is
+    not positive.  Also returns the size of the minuend of the code's numerator (for the cancellation slack)."""
+    import numpy as np
+    K = w.shape[0]
+    lam, S, chat = edge_stats(u, w, edge_groups(edges), len(edges))
+    mult = np.asarray(A, dtype=float) / lam
+    num = np.einsum("e,eab->ab", mult, chat)
+    big = np.einsum("e,ea,eb->ab", mult, S, S)
+    den = chat_of(u) + r
+    out = np.zeros((K, K))
+    np.divide(w * num, den, out=out, where=den > 0)
+    slack = np.zeros((K, K))
+    np.divide(0.5 * w * big, den, out=slack, where=den > 0)
+    return out, slack
+
+
+def ref_u_step(u, w, edges, A, r):
+    """one `_u_update` by its description: u_ia * sum_b w_ab sum_(e through i) (A_e/lambda_e) sum_(j in e, j != i) u_jb /
+    (sum_b w_ab sum_(j != i) u_jb + r_ia), 0 where the denominator is not positive"""
+    import numpy as np
+    acc, big = np.zeros_like(u), np.zeros_like(u)
+    groups = edge_groups(edges)
+    lam, S, _ = edge_stats(u, w, groups, len(edges))
+    mult = np.asarray(A, dtype=float) / lam
+    for d, ks, idx in groups:
+        if d <= 8:
+            oth = np.einsum("ij,ejk->eik", 1.0 - np.eye(d), u[idx])         # row i: the other nodes of the hyperedge
+            np.add.at(acc, idx, mult[ks][:, None, None] * oth)
+            np.add.at(big, idx, (mult[ks][:, None] * S[ks])[:, None, :] * np.ones((1, d, 1)))
+        else:
+            for k, e in zip(ks, idx):
+                acc[e] += mult[k] * others_of(u[e])
+                big[e] += mult[k] * S[k][None, :]
+    den = others_of(u) @ w + r
+    out = np.zeros_like(u)
+    np.divide(u * (acc @ w), den, out=out, where=den > 0)
+    slack = np.zeros_like(u)
+    np.divide(u * (big @ w), den, out=slack, where=den > 0)
+    return out, slack
+
+
+def check_magfit(ctx, case, u, w, edges, wts, viol):
+    """`fit` at scale: hundreds to thousands of nodes and hyperedges, tiny / huge supplied parameters.  The property's clauses
+    (supplied parameters stay, finite, non-negative, symmetric / diagonal, max_hye_size covers the data, ascent of the penalised
+    likelihood with supplied memberships - here through the closed form sum_e A_e log lambda_e - C(D) (S(u, w) + sum r w), which
+    C15_normaliser / C15_exact_likelihood identify with the sum over all hyperedges) and, as correspondence with the description of
+    the updates, the returned parameters against n reference steps from the same initial draw."""
+    import numpy as np
+    from hypergraphx.communities.hy_mmsbm.model import HyMMSBM
+    f = case["fit"]
+    N, K = case["N"], case["K"]
+    which, assort, prior, seed = f["which"], f["assortative"], float(f["prior"]), f["seed"]
+    A = [1.0] * len(edges) if wts is None else list(wts)
+    Dtrue = max(len(e) for e in edges)
+    mhs = f["max_hye_size"]
+    if mhs is not None and mhs < Dtrue:
+        mhs = Dtrue
+    if which == "w" and assort:
+        w = np.diag(np.diag(w))
+        if not np.any(w > 0):
+            w = w + np.eye(K) * 10.0 ** case["wexp"]
+    tag = f"fit at scale (N={N}, {len(edges)} hyperedges up to size {Dtrue}, {'memberships' if which == 'u' else 'affinity'} supplied with " \
+          f"entries up to {(u if which == 'u' else w).max():.3g}, assortative={assort}, prior={prior})"
+
+    def make():
+        kw = {"u": u.copy(), "w_prior": prior, "u_prior": 0.0} if which == "u" else {"w": w.copy(), "u_prior": prior, "w_prior": 1.0}
+        return HyMMSBM(K=K, assortative=assort, max_hye_size=mhs, seed=seed, **kw)
+
+    def initial():
+        m = make()
+        if which == "u":
+            m._init_w()
+            return np.array(m.w, dtype=float)
+        m._init_u(N)
+        return np.array(m.u, dtype=float)
+    st, h = guarded(lambda: build_hypergraph(N, edges, wts, None), 60)
+    st0, x0 = guarded(initial, 30)
+    if st != "ok" or st0 != "ok":
+        viol(f"{tag}: Hypergraph / initial draw raised {h if st != 'ok' else x0}")
+        return
+    Dm = Dtrue if mhs is None else mhs
+    Cd = math.fsum(2 / (d * (d - 1)) for d in range(2, Dm + 1))
+    ref, liks = x0, []
+    supplied = u if which == "u" else w
+    for n in f["n_list"]:
+        def run():
+            m = make()
+            held = m.u if which == "u" else m.w
+            m.fit(h, n_iter=n)
+            return m, held
+        st, r = guarded(run, 120)
+        if st != "ok":
+            viol(f"{tag}: fit(n_iter={n}) raised {r}")
+            return
+        m, held = r
+        uu, ww = np.asarray(m.u, dtype=float), np.asarray(m.w, dtype=float)
+        got_sup = uu if which == "u" else ww
+        if got_sup.shape != supplied.shape or not np.array_equal(got_sup, supplied) or not np.array_equal(held, supplied):
+            viol(f"{tag}: fit(n_iter={n}) changed the supplied {'u' if which == 'u' else 'w'}")
+            return
+        if uu.shape != (N, K) or ww.shape != (K, K) or not (np.all(np.isfinite(uu)) and np.all(np.isfinite(ww))):
+            viol(f"{tag}: fit(n_iter={n}) returned non-finite parameters or shapes {uu.shape}, {ww.shape}")
+            return
+        free = ww if which == "u" else uu
+        top = float(np.max(np.abs(free)))
+        if np.min(free) < -1e-9 * top:
+            viol(f"{tag}: fit(n_iter={n}) returned a negative entry {np.min(free)!r}")
+        if np.max(np.abs(ww - ww.T)) > 1e-9 * float(np.max(np.abs(ww))):
+            viol(f"{tag}: fit(n_iter={n}) returned a non-symmetric w")
+        if assort and np.any(ww[~np.eye(K, dtype=bool)] != 0):
+            viol(f"{tag}: fit(n_iter={n}) with assortative=True returned a w that is not diagonal")
+        if m.max_hye_size != Dm or m.K != K or bool(m.assortative) != assort:
+            viol(f"{tag}: after fit(n_iter={n}) max_hye_size / K / assortative = {m.max_hye_size} / {m.K} / {m.assortative}, "
+                 f"expected {Dm} / {K} / {assort}")
+            return
+        # reference: n steps from the same initial draw, then the division by C() resp. sqrt(C())
+        while len(liks) < n:
+            if which == "u":
+                ref, slack = ref_w_step(u, ref, edges, A, prior)
+            else:
+                ref, slack = ref_u_step(ref, w, edges, A, prior)
+            liks.append(None)
+        want = ref / Cd if which == "u" else ref / math.sqrt(Cd)
+        sl = MAG_CANCEL * 100 * (slack / Cd if which == "u" else slack / math.sqrt(Cd))
+        okm = np.abs(free - want) <= 1e-8 * np.maximum(np.abs(free), np.abs(want)) * n + sl
+        if not okm.all():
+            k = tuple(int(x) for x in np.argwhere(~okm)[0])
+            viol(f"{tag}: fit(n_iter={n}) returned {'w' if which == 'u' else 'u'}{list(k)} = {free[k]!r} but {n} update step(s) by their "
+                 f"description from the same initial draw, divided by {'C()' if which == 'u' else 'sqrt(C())'} = {Cd:.6g}, give {want[k]!r} "
+                 f"({int((~okm).sum())} of {okm.size} entries differ)")
+            return
+        if which == "u":
+            lams = edge_stats(u, ww, edge_groups(edges), len(edges))[0].tolist()
+            if min(lams) <= 0:
+                viol(f"{tag}: a data hyperedge has Poisson parameter <= 0 under the w of fit(n_iter={n})")
+                return
+            L = math.fsum(a * math.log(l) for a, l in zip(A, lams)) - Cd * (pair_sums(u, ww)[0] + prior * float(ww.sum()))
+            liks[n - 1] = L
+    ctx.count("mag_fits_at_scale")
+    seq = [(n, liks[n - 1]) for n in f["n_list"] if which == "u"]
+    for (n0, l0), (n1, l1) in zip(seq, seq[1:]):
+        if l1 < l0 - 1e-9 * (1 + abs(l0)):
+            viol(f"{tag}: the penalised exact log-likelihood decreased from n_iter={n0} to {n1}: {l0!r} -> {l1!r}")
+            break
+
+
+def check_mag(ctx, drv, case):
+    import numpy as np
+    from scipy import sparse
+    from hypergraphx.communities.hy_mmsbm.model import HyMMSBM
+    from hypergraphx.communities.hy_mmsbm import _linear_ops as lo
+    N, K, D = case["N"], case["K"], case["D"]
+    u, w, edges, wts = mag_arrays(case)
+    bad = []
+
+    def viol(what):
+        if len(bad) < 6:
+            bad.append(what)
+
+    tag = f"N={N}, K={K}, max_hye_size={D}, u entries up to {u.max():.3g}, w entries up to {w.max():.3g}"
+    u0, w0 = u.copy(), w.copy()
+    st, model = guarded(lambda: HyMMSBM(u=u, w=w, max_hye_size=D, u_prior=0.0, w_prior=1.0), 30)
+    if st != "ok":
+        ctx.case(repr(("mag", sorted(case.items()))), True, sample=case)
+        ctx.violation(case, f"HyMMSBM(u, w, max_hye_size={D}) raised {model} ({tag})")
+        return
+    tab = SizeTable(N, N)
+    ctx.count("mag_cases")
+    if N > MAG_NDEF:
+        ctx.count("mag_cases_beyond_%d_nodes" % MAG_NDEF)
+    if float(w.max()) <= 1e-8 and np.any(w[~np.eye(K, dtype=bool)] > 0):
+        ctx.count("mag_cases_all_affinities_below_1e-8_and_not_diagonal")
+
+    # ---- reference pair sums (self-checked against the explicit double sum on small cases)
+    S, A, R = pair_sums(u, w)
+    if N <= 40:
+        S2, A2, R2 = pair_sums_brute(u, w)
+        if not (relok(S, S2, rtol=1e-12) and all(relok(x, y, rtol=1e-12) for x, y in zip(A, A2))
+                and all(relok(x, y, rtol=1e-11) for x, y in zip(R, R2))):
+            raise AssertionError("internal: running-sum reference differs from the explicit pair sums")
+    usum = u.sum(axis=0)
+    UwU = float(usum @ w @ usum)          # the square the code subtracts the diagonal from
+    uwU = (u @ w) @ usum                  # per node
+
+    # ---- log_kappa: scalars (int, numpy integer), arrays (unsorted sample, the ranges dimension_sequence uses)
+    lk_single = [d for d in case["lk_single"] if 2 <= d <= N]
+    lk_arrays = [[d for d in case["lk_array"] if 2 <= d <= N]]
+    if D * D <= 3_000_000:
+        lk_arrays.append(list(range(2, D + 1)))
+        if D >= 3:
+            lk_arrays.append(list(range(3, D + 1)))
+    lk_arrays = [a for a in lk_arrays if a]
+
+    def lk_calls():
+        out = [model.log_kappa(d) for d in lk_single]
+        out2 = [model.log_kappa(np.int64(d)) for d in lk_single[:4]]
+        out3 = [model.log_kappa(np.array(a)) for a in lk_arrays]
+        return out, out2, out3
+    st, r = guarded(lk_calls, 60)
+    lk_impl = {}
+    if st != "ok":
+        viol(f"log_kappa raised {r} ({tag}, sizes {lk_single[:6]}..)")
+    else:
+        o1, o2, o3 = r
+        pairs = list(zip(lk_single, o1, ["int"] * len(o1))) + list(zip(lk_single[:4], o2, ["numpy.int64"] * len(o2)))
+        for a, vals in zip(lk_arrays, o3):
+            vals = np.atleast_1d(np.asarray(vals, dtype=float))
+            if vals.shape != (len(a),):
+                viol(f"log_kappa(array of {len(a)} sizes) has shape {vals.shape}")
+                continue
+            pairs += list(zip(a, vals.tolist(), ["array"] * len(a)))
+        worst = None
+        for d, got, how in pairs:
+            ref, by = tab.log_kappa(d)
+            if ref + math.log(2) - math.log(d) - math.log(d - 1) > FLOAT_MAX_LOG:
+                ctx.count("mag_log_kappa_sizes_with_a_binomial_beyond_the_float_range")
+            lk_impl.setdefault(d, float(got))
+            if not logk_ok(got, ref) and worst is None:
+                worst = (d, got, ref, by, how)
+        ctx.count("mag_log_kappa_values_compared", len(pairs))
+        if worst:
+            d, got, ref, by, how = worst
+            viol(f"log_kappa({d}) [{how} argument] = {float(got)!r} but log(binom(N-2,d-2) d (d-1)/2) = {ref!r} ({by}); N={N}")
+
+    # ---- the constants and the expected degrees, per set of sizes
+    dsets = [("all", list(range(2, D + 1)))]
+    for d1 in case["d_single"]:
+        if 2 <= d1 <= D:
+            dsets.append((int(d1), [int(d1)]))
+    if D >= 3:
+        dsets.append((np.arange(3, D + 1), list(range(3, D + 1))))
+    sub = [d for d in case["d_subset"] if 2 <= d <= D]
+    if sub:
+        dsets.append((np.array(sub), sub))
+    model_lines, model_expect = [], []
+    for darg, ds in dsets:
+        defn = [tab.terms(d) for d in ds]
+        refC, refC1, refC2 = (math.fsum(t[i] for t in defn) for i in range(3))
+        dshow = f"{len(ds)} sizes {ds[:3]}..{ds[-1]}" if len(ds) > 4 else str(ds)
+
+        def consts():
+            return (model.C(darg), model.C(darg, return_summands=True), model._C_prime(darg) if N >= 3 else None,
+                    model._C_second(darg))
+        st, r = guarded(consts, 30)
+        if st != "ok":
+            viol(f"C / _C_prime / _C_second raised {r} for d = {dshow} ({tag})")
+            continue
+        Cv, Cs, C1, C2 = r
+        Cs = np.atleast_1d(np.asarray(Cs, dtype=float))
+        if not relok(Cv, refC):
+            viol(f"C({dshow}) = {float(Cv)!r} but sum_d binom(N-2,d-2)/kappa_d = {refC!r} (N={N})")
+        if Cs.shape != (len(ds),) or not all(relok(x, t[0]) for x, t in zip(Cs.tolist(), defn)):
+            k = next((i for i, (x, t) in enumerate(zip(Cs.tolist(), defn)) if not relok(x, t[0])), 0)
+            viol(f"C({dshow}, return_summands=True): summand of size {ds[k]} = {Cs.tolist()[k] if k < len(Cs) else None!r} but "
+                 f"binom(N-2,d-2)/kappa_d = {defn[k][0]!r} (N={N})")
+        if not relok(C2, refC2):
+            viol(f"_C_second({dshow}) = {float(C2)!r} but sum_d binom(N-2,d-2) d/(N kappa_d) = {refC2!r} (N={N})")
+        if N >= 3 and not relok(C1, refC1):
+            viol(f"_C_prime({dshow}) = {float(C1)!r} but sum_d binom(N-3,d-3)/kappa_d = {refC1!r} (N={N})")
+        if N >= 3 and len(ds) <= 2500 and len(model_lines) < 3:
+            model_lines.append(f"cbig {N} {hgxv.enc_list(ds)}")
+            model_expect.append(("cbig", (float(Cv), float(C1), float(C2))))
+        ctx.count("mag_size_sets_compared")
+
+        st, r = guarded(lambda: (model.expected_degree(per_node=False, d=darg),
+                                 model.expected_degree(per_node=True, d=darg) if N >= 3 else None), 30)
+        if st != "ok":
+            viol(f"expected_degree raised {r} for d = {dshow} ({tag})")
+            continue
+        avg, per = r
+        # average over the nodes of sum_(e through i) lambda_e/kappa_e = (1/N) sum_d d binom(N-2,d-2) S / kappa_d
+        if not relok(avg, refC2 * S, slack=MAG_CANCEL * refC2 * 0.5 * UwU):
+            viol(f"expected_degree(d = {dshow}) = {float(avg)!r} but the average over the nodes of the summed lambda_e/kappa_e is "
+                 f"{refC2 * S!r} ({tag})")
+        if per is not None:
+            per = np.asarray(per, dtype=float)
+            want = refC * A + refC1 * R       # sum_d [binom(N-2,d-2) A_i + binom(N-3,d-3) R_i]/kappa_d  (C15_count_node)
+            slack = MAG_CANCEL * (refC * uwU + refC1 * 0.5 * UwU)
+            if per.shape != (N,):
+                viol(f"expected_degree(per_node=True) has shape {per.shape} for {N} nodes")
+            else:
+                okv = np.isfinite(per) & (np.abs(per - want) <= MAG_RTOL * np.maximum(np.abs(per), np.abs(want)) + slack)
+                if not okv.all():
+                    i = int(np.argmin(okv))
+                    viol(f"expected_degree(per_node=True, d = {dshow})[{i}] = {per[i]!r} but the sum over all hyperedges through node "
+                         f"{i} of lambda_e/kappa_e is {want[i]!r} ({int((~okv).sum())} of {N} nodes differ; {tag})")
+
+    # ---- expected number of hyperedges per size, expected degree sequence
+    for dyadic in (True, False):
+        ds = list(range(2 if dyadic else 3, D + 1))
+        st, r = guarded(lambda: (model.dimension_sequence(include_dyadic=dyadic, expected=True),
+                                 model.degree_sequence(include_dyadic=dyadic, expected=True) if N >= 3 and ds else None), 30)
+        if st != "ok":
+            viol(f"dimension_sequence / degree_sequence(expected=True, include_dyadic={dyadic}) raised {r} ({tag})")
+            continue
+        dim, deg = r
+        got = {int(k): float(v) for k, v in dim.items()}
+        want = {d: tab.terms(d)[0] * S for d in ds}       # sum over all hyperedges of size d of lambda_e/kappa_d (C15_count)
+        slack = MAG_CANCEL * 0.5 * UwU
+        wrong = [d for d in ds if not relok(got.get(d, 0.0), want[d], slack=slack * tab.terms(d)[0])] + [k for k in got if k not in want]
+        if wrong:
+            d = wrong[0]
+            viol(f"dimension_sequence(expected=True, include_dyadic={dyadic})[{d}] = {got.get(d)!r} but the expected number of hyperedges "
+                 f"of size {d}, sum_e lambda_e/kappa_{d}, is {want.get(d)!r} ({len(wrong)} of {len(ds)} sizes differ; {tag})")
+        if deg is not None:
+            deg = np.asarray(deg, dtype=float)
+            defn = [tab.terms(d) for d in ds]
+            rC, rC1 = math.fsum(t[0] for t in defn), math.fsum(t[1] for t in defn)
+            wantd = rC * A + rC1 * R
+            slackd = MAG_CANCEL * (rC * uwU + rC1 * 0.5 * UwU)
+            if deg.shape != (N,) or not (np.isfinite(deg) & (np.abs(deg - wantd) <= MAG_RTOL * np.maximum(np.abs(deg), np.abs(wantd)) + slackd)).all():
+                viol(f"degree_sequence(expected=True, include_dyadic={dyadic}) differs from the summed lambda_e/kappa_e ({tag})")
+    ctx.count("mag_dimension_sequence_sizes_compared", max(0, 2 * D - 3))
+
+    # ---- spot check of the reduced quotients used beyond MAG_NDEF nodes (exact binomials)
+    if not tab.exact:
+        for d in [d for d in lk_single if min(d - 2, N - d) <= 4000][:6]:
+            a, b = tab.terms(d, definition=True), tab.terms(d, definition=False)
+            if not all(relok(x, y, rtol=1e-14) for x, y in zip(a, b)):
+                raise AssertionError("internal: reduced quotient differs from the exact binomial quotient")
+
+    # ---- Poisson parameters of large and small hyperedges (CSR of the real binary_incidence_matrix, dense, hand-built CSR)
+    rows = [i for e in edges for i in e]
+    cols = [k for k, e in enumerate(edges) for _ in e]
+    B_hand = sparse.csr_array((np.ones(len(rows)), (rows, cols)), shape=(N, len(edges)))
+    variants = [("csr", B_hand)]
+    if N * len(edges) <= 4_000_000:
+        variants.append(("dense", B_hand.toarray()))
+    if case.get("via_hypergraph") and N <= 3000:
+        def through_hypergraph():
+            from hypergraphx.linalg.linalg import binary_incidence_matrix
+            h = build_hypergraph(N, edges, wts, None)
+            return binary_incidence_matrix(h), list(h.get_weights())
+        st, r = guarded(through_hypergraph, 60)
+        if st != "ok":
+            viol(f"Hypergraph / binary_incidence_matrix raised {r} for {N} nodes and hyperedges of sizes {[len(e) for e in edges]}")
+        else:
+            Bh, hw = r
+            Bd = Bh
+            Bc = sparse.csc_array(Bh)
+            got_cols = [tuple(int(i) for i in sorted(Bc.indices[Bc.indptr[k]:Bc.indptr[k + 1]])) for k in range(Bc.shape[1])]
+            if Bd.shape != (N, len(edges)) or sorted(got_cols) != sorted(edges) or Bc.nnz != len(rows) or not np.all(Bc.data == 1):
+                viol(f"binary_incidence_matrix: shape {Bd.shape}, columns do not hold the {len(edges)} hyperedges of sizes "
+                     f"{[len(e) for e in edges][:8]} on {N} nodes")
+            else:
+                variants.append(("binary_incidence_matrix", (Bh, got_cols)))
+    if len(edges) > 100:
+        ctx.count("mag_cases_with_more_than_100_hyperedges")
+    lam_all, S_all, _ = edge_stats(u, w, edge_groups(edges), len(edges))
+    lam_ref = {e: float(lam_all[k]) for k, e in enumerate(edges)}
+    es_ref = {e: S_all[k] for k, e in enumerate(edges)}
+    sq_ref = {e: float(S_all[k] @ w @ S_all[k]) for k, e in enumerate(edges)}
+    for name, Bv in variants:
+        order = edges
+        if name == "binary_incidence_matrix":
+            Bv, order = Bv
+        st, r = guarded(lambda: model.poisson_params(Bv, return_edge_sum=True), 30)
+        if st != "ok":
+            viol(f"poisson_params({name}) raised {r} ({tag}, hyperedge sizes {[len(e) for e in order]})")
+            continue
+        pp, es = r
+        pp, es = np.asarray(pp, dtype=float), np.asarray(es, dtype=float)
+        if pp.shape != (len(order),) or es.shape != (len(order), K):
+            viol(f"poisson_params({name}) returns shapes {pp.shape}, {es.shape} for {len(order)} hyperedges")
+            continue
+        for k, e in enumerate(order):
+            if not relok(pp[k], lam_ref[e], slack=MAG_CANCEL * sq_ref[e]):
+                viol(f"poisson_params({name}) of a hyperedge of size {len(e)} = {pp[k]!r} but the sum over its node pairs of "
+                     f"u_i^T w u_j is {lam_ref[e]!r} ({tag})")
+                break
+            if not all(relok(x, y, rtol=1e-11) for x, y in zip(es[k], es_ref[e])):
+                viol(f"hyperedge sums of a hyperedge of size {len(e)} = {es[k].tolist()} but sum_(i in e) u_i = {es_ref[e].tolist()}")
+                break
+        ctx.count("mag_poisson_parameters_compared", len(order))
+    # ---- the linear operations themselves on the large arrays
+    st, r = guarded(lambda: (lo.bf_and_sum(u, w), lo.qf_and_sum(u, w), lo.qf(u, w), lo.bf(u, usum, w)), 30)
+    if st != "ok":
+        viol(f"_linear_ops raised {r} ({tag})")
+    else:
+        bfs, qfs, qfv, bfv = r
+        qf_ref = np.einsum("ik,kl,il->i", u, w, u)
+        if not relok(bfs, S, slack=MAG_CANCEL * 0.5 * UwU):
+            viol(f"bf_and_sum(u, w) = {float(bfs)!r} but sum_(i<j) u_i^T w u_j = {S!r} ({tag})")
+        if not relok(qfs, math.fsum(qf_ref.tolist())) or np.shape(qfv) != (N,) or \
+                not all(relok(x, y) for x, y in zip(np.asarray(qfv, dtype=float).tolist(), qf_ref.tolist())):
+            viol(f"qf / qf_and_sum differ from u_i^T w u_i ({tag})")
+        if np.shape(bfv) != (N,) or not all(relok(x, y + z) for x, y, z in zip(np.asarray(bfv, dtype=float).tolist(), A.tolist(), qf_ref.tolist())):
+            viol(f"bf(u, u.sum(axis=0), w) differs from sum_j u_i^T w u_j ({tag})")
+    # ---- queries leave the parameters alone
+    if not (np.array_equal(u, u0) and np.array_equal(w, w0) and model.u is u and model.w is w and model.max_hye_size == D):
+        viol(f"the queries changed u, w or max_hye_size ({tag})")
+
+    if case.get("fit") and N <= 6000:
+        check_magfit(ctx, case, u, w, edges, wts, viol)
+
+    nontrivial = N >= 70 or abs(case["uexp"]) >= 8 or abs(case["wexp"]) >= 8
+    ctx.case(repr(("mag", sorted((k, repr(v)) for k, v in case.items()))), nontrivial, sample=case)
+    for what in bad:
+        ctx.violation(case, what)
+
+    # ---- the Lean model on the same input: constants for thousands of sizes, kappa through the products of log_binomial
+    #      (exact integers of any size), Poisson parameters / pair sum / average degree on the exact rationals of the floats
+    if drv is None:
+        return
+    kd = [d for d in lk_single if d in lk_impl and d <= 12000][:6]
+    if kd:
+        model_lines.append(f"kap {N} {hgxv.enc_list(kd)}")
+        model_expect.append(("kap", kd))
+    if N <= MAG_NMODEL:
+        small = edges[:12]
+        model_lines += ["setu " + enc_mat(u.tolist()), "setw " + enc_mat(w.tolist()),
+                        "data " + hgxv.enc_lists(small) + " " + hgxv.enc_list([F(1)] * len(small)), "pois", "bfsum",
+                        "expavg " + hgxv.enc_list(range(2, D + 1))]
+        st2, r2 = guarded(lambda: (model.poisson_params(B_hand)[:12], lo.bf_and_sum(u, w), model.expected_degree()), 30)
+        model_expect += [("ok", None), ("ok", None), ("ok", None)]
+        if st2 == "ok":
+            model_expect += [("rel", (list(np.asarray(r2[0], dtype=float)), [MAG_CANCEL * sq_ref[e] for e in small])),
+                             ("rel", ([float(r2[1])], [MAG_CANCEL * 0.5 * UwU])), ("rel", ([float(r2[2])], [MAG_CANCEL * UwU]))]
+        else:
+            model_expect += [("skip", None)] * 3
+        if N <= 40 and N >= 3:
+            model_lines.append("expdeg " + hgxv.enc_list(range(2, D + 1)))
+            st3, r3 = guarded(lambda: model.expected_degree(per_node=True), 30)
+            model_expect.append(("rel", (list(np.asarray(r3, dtype=float)), (MAG_CANCEL * (uwU + UwU)).tolist())) if st3 == "ok" else ("skip", None))
+    ans = drv.batch(model_lines)
+    for ln, a, (kind, val) in zip(model_lines, ans, model_expect):
+        ok, shown = True, val
+        try:
+            if kind == "ok":
+                ok = a == "ok"
+            elif kind == "cbig":
+                p = a.split(";")
+                ok = len(p) == 3 and all(relok(float(hgxv.dec_num(x)), y) for x, y in zip(p, val))
+            elif kind == "kap":
+                got = hgxv.dec_list(a)
+                ok = len(got) == len(val)
+                for d, kq in zip(val, got):
+                    # the model's kappa (products of log_binomial) is the integer of the definition, and its logarithm is what
+                    # the implementation returns
+                    ok = ok and kq == tab.c2(d) * d * (d - 1) // 2 and logk_ok(lk_impl[d], math.log(kq))
+                shown = "log_kappa = " + str([lk_impl[d] for d in val])
+                a = "kappa with logarithms " + str([math.log(k) if k > 0 else None for k in got])
+            elif kind == "rel":
+                vals, slacks = val
+                got = hgxv.dec_list(a)
+                ok = len(got) == len(vals) and all(relok(float(x), y, slack=s) for x, y, s in zip(got, vals, slacks))
+                shown = vals
+                a = str([float(x) for x in got])
+        except Exception as e:  # noqa: BLE001
+            ok = False
+            a = f"{a[:80]} ({type(e).__name__})"
+        if not ok:
+            ctx.disagree({**case, "line": ln[:200]}, f"model answers {a[:160]!r} to {ln[:50]!r}, implementation gives {str(shown)[:200]}")
+
+
+# the first magnitude cases of every run are pinned to the regimes a random draw reaches only now and then
+MAG_FORCED = [
+    {"cls": "huge", "N": 65537, "D": 65537, "K": 1},                   # size sets / dimension sequences beyond 46341 (d (d-1) > 2^31)
+    {"cls": "edge308", "D": "N"},                                      # binom(N-2, d-2) crosses the float range inside one array
+    {"cls": "mid", "D": "N", "full_edge": True, "emany": 4097, "via_hypergraph": False, "fit": True, "which": "u", "n_list": [1, 2],
+     "max_hye_size": None},
+    # ^ thousands of hyperedges, one past a power of two, the few large ones anywhere among them: queries and a fit (memberships supplied)
+    {"cls": "small", "K": 3, "wkind": "full", "wexp": -10, "uexp": 0, "colexp": 0},   # every affinity below 1e-8, not diagonal
+    {"cls": "large", "uexp": -90, "wexp": -45},                        # products of size 1e-230
+    {"cls": "larger", "D": "N", "uexp": 90, "wexp": 45},               # .. and 1e+230, all sizes up to N in the thousands
+    {"cls": "large", "Nrange": (1100, 1700), "D": "N", "full_edge": True, "fit": True, "which": "u"},   # fit with sizes beyond 1000
+    {"cls": "large", "Nrange": (450, 1700), "fit": True, "which": "w", "wexp": 30},   # memberships inferred under a huge affinity
+]
+
+
+def gen_mag(rng, force=None):
+    force = force or {}
+    cls = rng.choice(["small", "mid", "mid", "large", "large", "larger", "larger", "edge63", "edge308", "huge"])
+    cls = force.get("cls", cls)
+    if cls == "small":
+        N = rng.randint(8, 70)
+    elif cls == "mid":
+        N = rng.randint(70, 450)
+    elif cls == "large":
+        N = rng.randint(450, 1700)
+    elif cls == "larger":
+        N = rng.randint(1700, 6000)
+    elif cls == "edge63":
+        N = rng.randint(62, 74)          # binom(N-2, .) crosses 2^63 here
+    elif cls == "edge308":
+        N = rng.randint(1015, 1045)      # .. and the float range here
+    else:
+        N = rng.choice([20000, 46400, 65537, 100003, rng.randint(7000, 120000)])
+    if N >= 16 and not cls.startswith("edge"):
+        N = rng.choice([N, N, N, 1 << (N.bit_length() - 1), (1 << (N.bit_length() - 1)) + 1])
+    N = force.get("N", N)
+    if "Nrange" in force:
+        N = rng.randint(*force["Nrange"])
+    r = rng.random()
+    if cls == "huge":
+        D = rng.choice([rng.randint(2, 40), rng.randint(40, 700), rng.randint(700, 2500), rng.choice([N, rng.randint(46400, max(46400, N))])])
+        D = min(D, N)
+    elif r < 0.4:
+        D = N
+    elif r < 0.6:
+        D = rng.randint(max(2, N // 2), N)
+    elif r < 0.8:
+        D = rng.randint(2, max(2, min(N, 40)))
+    else:
+        D = rng.randint(2, N)
+    if "D" in force:
+        D = N if force["D"] == "N" else force["D"]
+    K = rng.choice([1, 2, 2, 3, 3, 4]) if cls != "huge" else rng.choice([1, 2, 3])
+    K = force.get("K", K)
+    mid = (N + 2) // 2                   # where binom(N-2, d-2) is largest
+    pool = [2, 3, 4, D, max(2, D - 1), max(2, D // 2), mid, max(2, mid - 1), N, N - 1, max(2, N // 3), max(2, N // 10 + 2),
+            rng.randint(2, N), rng.randint(2, N), rng.randint(2, D)]
+    lk_single = sorted({d for d in pool if 2 <= d <= N})
+    rng.shuffle(lk_single)
+    lk_single = lk_single[:rng.randint(5, 10)]
+    lk_array = rng.sample(range(2, N + 1), min(N - 1, rng.randint(1, 24)))
+    if rng.random() < 0.5:
+        lk_array += [mid, N]
+    d_single = [rng.choice([2, 3, D, max(2, D // 2), rng.randint(2, D)])]
+    d_subset = rng.sample(range(2, D + 1), min(D - 1, rng.randint(1, 30)))
+    uexp = rng.choice([0, 0, 0, rng.randint(-8, 8), rng.randint(-90, 90), rng.choice([-90, -60, -30, -9, 9, 30, 60, 90])])
+    wexp = rng.choice([0, 0, rng.randint(-8, 8), rng.randint(-45, 45), rng.choice([-45, -20, -12, -10, -9, -8, 8, 20, 45])])
+    colexp = [0] * K
+    if rng.random() < 0.3 and "colexp" not in force:
+        colexp = [rng.randint(-12, 12) for _ in range(K)]
+    uexp, wexp = force.get("uexp", uexp), force.get("wexp", wexp)
+    esizes = [rng.choice([2, 2, 3, D, max(2, D - 1), max(2, D // 2), rng.randint(2, D), min(N, rng.randint(2, max(2, 2 * D)))])
+              for _ in range(rng.randint(1, 5))]
+    esizes = [min(d, D) for d in esizes]
+    if force.get("full_edge"):
+        esizes[0] = D
+    weights = rng.choice([None, None, [rng.randint(1, 12) / 4 for _ in esizes]])
+    emany = 0
+    if rng.random() < 0.07 and N <= 6000:
+        emany = rng.choice([300, 1000, rng.randint(100, 1500), rng.choice([4095, 4096, 4097]), rng.randint(1500, 6000)])
+    emany = force.get("emany", emany)
+    fit, pzero = None, rng.choice([0.0, 0.1, 0.3])
+    if (rng.random() < 0.15 and N <= 2500) or force.get("fit"):
+        # fit at scale on the same data; the updates divide by the Poisson parameters of the data, so every membership is positive
+        pzero = 0.0
+        fit = {"which": force.get("which", rng.choice(["u", "u", "u", "w"])), "assortative": rng.random() < 0.5,
+               "prior": rng.choice([0.0, 0.0, 1.0, 5.0]),
+               "seed": rng.randrange(10 ** 6), "n_list": force.get("n_list", rng.choice([[1, 2, 3], [1, 2], [1, 3], [2, 4]])),
+               "max_hye_size": force.get("max_hye_size", rng.choice([None, None, D]))}
+        if emany == 0 and rng.random() < 0.5:
+            emany = rng.choice([50, 200, 600, rng.randint(20, 1500)])
+    return {"kind": "mag", "N": N, "K": K, "D": D, "aseed": rng.randrange(1 << 30), "dyadic": rng.random() < 0.3,
+            "pzero": pzero, "fit": fit, "rows": rng.choice(["flat", "flat", "spread", "one"]),
+            "colexp": colexp, "uexp": uexp, "wexp": wexp,
+            "wkind": force.get("wkind", rng.choice(["diag", "full", "full", "sparse", "offtiny", "offtiny", "offonly"])),
+            "zero_diag": rng.random() < 0.3, "esizes": esizes, "weights": weights, "emany": emany,
+            "lk_single": lk_single, "lk_array": lk_array, "d_single": d_single, "d_subset": d_subset,
+            "via_hypergraph": force.get("via_hypergraph", rng.random() < 0.6)}
 
 
 # -------------------------------------------------------------------------------------------------
@@ -2159,16 +3009,21 @@ def run(ctx):
     drv = ctx.driver() if ctx.model_available else None
     replay_known(ctx, drv)
     n_closed, n_update, n_fit, n_session = ctx.scale(60, 2600), ctx.scale(80, 4200), ctx.scale(45, 1600), ctx.scale(32, 700)
+    n_mag = ctx.scale(36, 600)
     streams = [(gen_closed, check_closed, n_closed), (gen_update, check_update, n_update), (gen_fit, check_fit, n_fit),
-               (gen_session, check_session, n_session)]
+               (gen_session, check_session, n_session), (gen_mag, check_mag, n_mag)]
     # interleave so that a short time budget still covers the three streams
     todo = []
     for g, c, n in streams:
         todo += [(i / n, g, c) for i in range(n)]
     todo.sort(key=lambda t: t[0])
+    forced = list(MAG_FORCED)
     for _, g, c in todo:
-        case = g(ctx.rng)
+        case = g(ctx.rng, force=forced.pop(0)) if g is gen_mag and forced else g(ctx.rng)
+        t_case = time.time()
         safely(ctx, c, drv, case)
+        spent = ctx.extra.setdefault("seconds_per_stream", {})
+        spent[case["kind"]] = round(spent.get(case["kind"], 0.0) + time.time() - t_case, 2)
         if ctx.too_many() or (ctx.time_left() is not None and ctx.time_left() < 8):
             ctx.count("stopped_early_time_or_findings")
             break
@@ -2189,5 +3044,7 @@ def replay(ctx, case):
         safely(ctx, check_fit, drv, case)
     elif kind == "session":
         safely(ctx, check_session, drv, case)
+    elif kind == "mag":
+        safely(ctx, check_mag, drv, case)
     else:
         raise ValueError("unknown case kind")
